@@ -251,6 +251,27 @@ PROPS = {
                         "extern declarations match the C prototypes", "exec_jet buffer widths"],
         "explanation": "",
     },
+    "C02": {
+        "units": ["decode"],
+        "kani": {"quick": ["c13_read_cmr_complete", "c13_read_cmr_short_complete"], "thorough": ["c13_read_fail_entropy_complete"]},
+        "level": "proof",
+        "level_text": "Deductive proof (Verus) on the real decode_node (src/bit_encoding/decode.rs): for every input stream and every node position it terminates without "
+                      "underflow or panic (`index - natural` and `n - 1` cannot wrap, the word size passed to Word::from_bits is at most 31), every child reference of the "
+                      "returned node points strictly backwards, and the bits it consumed are exactly node_code(returned node) - the function encode_node writes (unit `encode`, C01) - so "
+                      "a node has one accepted spelling. Only this node-level part of C02 is addressed.",
+        "level_note": "Assumed contracts: BitIter::{read_bit, read_u2, read_natural} as proved in unit bitstream (C13); read_natural::<u32> = the usize instance; read_cmr / read_fail_entropy "
+                      "(Kani complete harnesses); Word::from_bits (consumes the word's bits, panics only for n > 31); J::decode (C14's soundness theorem). NOT decided: decode_expression's loop "
+                      "(canonical order, hidden set, index arithmetic), identity-hash sharing checks, type inference totality, re-encoding equality of whole programs and witnesses, trailing-byte / "
+                      "padding rejection at the call sites (BitIter::close itself is proved under C13).",
+        "assumptions": [
+            "BitIter::{read_bit, read_u2, read_natural::<usize>} contracts (proved under C13); read_natural::<u32> behaves as the usize instance",
+            "read_cmr / read_fail_entropy consume 256 / 512 bits (Kani complete harnesses c13_read_cmr_*, c13_read_fail_entropy_complete)",
+            "Word::from_bits(bits, n) consumes exactly the word's bits and panics only for n > 31",
+            "J::decode accepts exactly the returned jet's code (C14)",
+        ],
+        "not_decided": ["decode_expression loop", "sharing checks by identity hash", "totality of type inference / finalisation", "whole-program re-encoding equality", "close() at the call sites"],
+        "explanation": "",
+    },
 }
 
 NOT_APPLICABLE = [
